@@ -638,49 +638,22 @@ pub fn c06(tier: Tier) -> i32 {
     rep.assumptions = vec![
         "TOML puts a table's own values before its sub-tables, so key order is compared separately among value entries and among table / array-of-tables entries; NaN payloads have no spelling: NaNs compare by sign only".into(),
     ];
-    let (s, d) = match tier {
-        Tier::Quick => (4usize, 1usize),
-        Tier::Thorough => (5usize, 2usize),
-    };
-    let t0 = std::time::Instant::now();
-    let shapes = root_shapes(s);
+    // (shape size, deviating positions, leaf alphabet) per pass; nothing is materialised: shapes are the parallel
+    // work items and the deviation sets are enumerated inside each
     let ks = keys10();
-    let ls = leaves();
-    // enumerate (shape, deviation set) as flat work items: (shape index, list of (is_key, position, alternative index))
-    let mut work: Vec<(usize, Vec<(bool, usize, usize)>)> = Vec::new();
-    for (si, sh) in shapes.iter().enumerate() {
-        let (mut nk, mut nl) = (0, 0);
-        count_positions(sh, &mut nk, &mut nl);
-        work.push((si, vec![]));
-        let mut singles: Vec<(bool, usize, usize)> = Vec::new();
-        for p in 0..nk {
-            for a in 0..ks.len() {
-                singles.push((true, p, a));
-            }
-        }
-        for p in 0..nl {
-            for a in 0..ls.len() {
-                singles.push((false, p, a));
-            }
-        }
-        for x in &singles {
-            work.push((si, vec![*x]));
-        }
-        if d >= 2 {
-            for (i, x) in singles.iter().enumerate() {
-                for y in &singles[i + 1..] {
-                    if (x.0, x.1) != (y.0, y.1) {
-                        work.push((si, vec![*x, *y]));
-                    }
-                }
-            }
-        }
-    }
+    let ls_full = leaves();
+    // the reduced leaf alphabet for position PAIRS: everything except the byte-class pair strings
+    let ls_small: Vec<Leaf> = ls_full.iter().filter(|l| !matches!(l, Leaf::S(s) if s.chars().count() == 2 && !["é😀", "{}", "\r\n"].contains(&s.as_str()))).cloned().collect();
+    let passes: Vec<(usize, usize, &Vec<Leaf>, &str)> = match tier {
+        Tier::Quick => vec![(4, 1, &ls_full, "full")],
+        Tier::Thorough => vec![(5, 1, &ls_full, "full"), (4, 2, &ls_small, "reduced (no byte-class pair strings)")],
+    };
     use rayon::prelude::*;
-    let acc = work
-        .par_iter()
-        .fold(Acc::default, |mut acc, (si, devs)| {
-            let mut t = shapes[*si].clone();
+    for (s, d, ls, lsname) in passes {
+        let t0 = std::time::Instant::now();
+        let shapes = root_shapes(s);
+        let run_one = |t: &T, devs: &[(bool, usize, usize)], acc: &mut Acc| {
+            let mut t = t.clone();
             for (is_key, pos, alt) in devs {
                 let mut idx = 0;
                 if *is_key {
@@ -690,11 +663,43 @@ pub fn c06(tier: Tier) -> i32 {
                 }
             }
             acc.evals += 1;
-            check_tree(&t, &mut acc);
-            acc
-        })
-        .reduce(Acc::default, Acc::merge);
-    rep.absorb("U-tree", &format!("{} shapes with <= {} nodes x every assignment with <= {} deviating positions over 10 keys / {} leaves x 5 construction routes + toml::Table", shapes.len(), s, d, ls.len()), work.len() as u64, true, t0, acc);
+            check_tree(&t, acc);
+        };
+        let acc = shapes
+            .par_iter()
+            .fold(Acc::default, |mut acc, sh| {
+                let (mut nk, mut nl) = (0, 0);
+                count_positions(sh, &mut nk, &mut nl);
+                run_one(sh, &[], &mut acc);
+                let mut singles: Vec<(bool, usize, usize)> = Vec::new();
+                for p in 0..nk {
+                    for a in 0..ks.len() {
+                        singles.push((true, p, a));
+                    }
+                }
+                for p in 0..nl {
+                    for a in 0..ls.len() {
+                        singles.push((false, p, a));
+                    }
+                }
+                for x in &singles {
+                    run_one(sh, &[*x], &mut acc);
+                }
+                if d >= 2 {
+                    for (i, x) in singles.iter().enumerate() {
+                        for y in &singles[i + 1..] {
+                            if (x.0, x.1) != (y.0, y.1) {
+                                run_one(sh, &[*x, *y], &mut acc);
+                            }
+                        }
+                    }
+                }
+                acc
+            })
+            .reduce(Acc::default, Acc::merge);
+        let n = acc.evals;
+        rep.absorb("U-tree", &format!("{} shapes with <= {} nodes x every assignment with <= {} deviating positions over 10 keys / {} leaves ({}) x 5 construction routes + toml::Table", shapes.len(), s, d, ls.len(), lsname), n, true, t0, acc);
+    }
     // nesting chains: every sequence of <= 6 container kinds around one leaf (the formatters decide per level whether an
     // inline table may be promoted to a [table]; a wrong decision only shows some levels down)
     {
